@@ -21,6 +21,7 @@ package main
 
 import (
 	"fmt"
+	"go/constant"
 	"go/types"
 	"os"
 	"sort"
@@ -414,7 +415,7 @@ func (r *rwRT) coverShape(fn *ssa.Function, pos, kind string, in0 *astInput) {
 	var sampleAccept string
 	for _, o := range outs {
 		if o.Panicked {
-			if yieldFreeScenario(o.St.Labels) {
+			if yieldFreeScenario(o.St.Labels) && !r.noSuchBlockKind(fn, o) {
 				note, where := "", ""
 				for i := len(o.St.Events) - 1; i >= 0; i-- {
 					if o.St.Events[i].Kind == "panic" {
@@ -824,6 +825,64 @@ func unwrapDyn(a AV) AV {
 		return d.V
 	}
 	return a
+}
+
+// noSuchBlockKind: the path assumes that the block the statement is lowered into (the accumulator parameter, a
+// symbolic input here) has a kind that no block is ever created with: every constant that some call of the
+// package hands to a constructor of that block type is excluded by a comparison on the path. An assertion about
+// the accumulator's kind fails only on such a path; it says nothing about the statement.
+func (r *rwRT) noSuchBlockKind(fn *ssa.Function, o Outcome) bool {
+	if len(fn.Params) == 0 {
+		return false
+	}
+	blockT := fn.Params[len(fn.Params)-1].Type()
+	created := map[int64]bool{}
+	for _, f := range r.w.FuncsOf(pathRw) {
+		for _, b := range f.Blocks {
+			for _, ins := range b.Instrs {
+				call, ok := ins.(ssa.CallInstruction)
+				if !ok {
+					continue
+				}
+				callee := call.Common().StaticCallee()
+				if callee == nil || !inRw(callee) || callee.Signature.Results().Len() != 1 || !types.Identical(callee.Signature.Results().At(0).Type(), blockT) {
+					continue
+				}
+				for _, a := range call.Common().Args {
+					if cst, ok := a.(*ssa.Const); ok && cst.Value != nil {
+						if _, named := cst.Type().(*types.Named); named {
+							if v, exact := constant.Int64Val(constant.ToInt(cst.Value)); exact {
+								created[v] = true
+							}
+						}
+					}
+				}
+			}
+		}
+	}
+	if len(created) == 0 {
+		return false
+	}
+	excluded := map[int64]bool{}
+	for _, cd := range o.St.Conds {
+		e, ok := cd.V.(Expr)
+		if !ok || e.Op != "==" || len(e.Args) != 2 || cd.Truth {
+			continue
+		}
+		for i := 0; i < 2; i++ {
+			sy, isSym := e.Args[i].(Sym)
+			v, isInt := asInt(e.Args[1-i])
+			if isSym && isInt && strings.HasPrefix(epochRe.ReplaceAllString(sy.Name, ""), "children.kind") {
+				excluded[v] = true
+			}
+		}
+	}
+	for v := range created {
+		if !excluded[v] {
+			return false
+		}
+	}
+	return true
 }
 
 // yieldFreeScenario: the path's oracle answers are those of a statement without any yield in it: every
